@@ -16,6 +16,8 @@ FSs == {"mem", "local"}
 Files == {"f1", "f2"}
 Stat == {[k |-> "stat", fs |-> f, ep |-> e, form |-> fm, name |-> n] : f \in FSs, e \in Eps, fm \in Forms, n \in Files \cup {"d1", "d1/f3"}}
 ReadDir == {[k |-> "readdir", fs |-> f, ep |-> e, form |-> fm, name |-> n, rec |-> r] : f \in FSs, e \in Eps, fm \in Forms, n \in {"d1", "d1/d2", ""}, r \in BOOLEAN}
+\* collections addressed with a trailing slash
+SlashForms == {[c EXCEPT !.form = c.form \o "/"] : c \in {x \in ReadDir : x.name # ""} \cup {x \in Stat : x.name = "d1"}}
 \* a listing that is large in size only (4 500 members, about 2 MB on the wire)
 ReadDirHuge == {[k |-> "readdirhuge", fs |-> "mem", ep |-> e, form |-> "abs", name |-> "d1", rec |-> r] : e \in {"slash", "pq"}, r \in BOOLEAN}
 Open == {[k |-> "open", fs |-> f, ep |-> e, form |-> fm, name |-> n] : f \in FSs, e \in Eps, fm \in Forms, n \in Files}
@@ -28,7 +30,7 @@ Move == {[k |-> "move", fs |-> "mem", ep |-> e, form |-> fm, name |-> n, dform |
            e \in Eps, fm \in Forms, n \in {"f1", "d1"}, df \in Forms, d \in {"new", "f2"}, no \in BOOLEAN}
 \* a nil options value means the defaults (recursive, overwrite)
 NilOpts == {[c EXCEPT !.nilopt = TRUE] : c \in {x \in Copy : ~x.norec /\ ~x.noow} \cup {x \in Move : ~x.noow}}
-All == NilOpts \cup Stat \cup ReadDir \cup ReadDirHuge \cup Open \cup Create \cup Simple \cup Copy \cup Move
+All == SlashForms \cup NilOpts \cup Stat \cup ReadDir \cup ReadDirHuge \cup Open \cup Create \cup Simple \cup Copy \cup Move
 \* the resolution rule as data: segments of the endpoint path
 EpSegs(e) == IF e \in {"none", "slash"} THEN << >> ELSE IF e \in {"p", "ptrail"} THEN <<"p">> ELSE <<"p", "q">>
 ASSUME \A e \in Eps : Len(EpSegs(e)) \in 0..2
